@@ -132,6 +132,7 @@ func (qr *queryRequest) Timeout(d time.Duration) {
 func (qe *queryEvent) startQueryListener() {
 	for m := range qe.ch {
 		m := m
+		simYield("queryListener.recv", qe.r.rname)
 		qe.r.s.runWith(qe.r.Group(), func() {
 			qe.handleQueryRequest(m)
 		})
